@@ -8,6 +8,9 @@ Parts (corpus cases of the two repaired defects are run first, through the same 
      the identification itself, two step sizes that must agree (oracle = property text).
   M  model chain in Qc on witness values (harness SVD / eig): Q1..Q3 (modulo changes of the state basis) and Fn_cov as
      returned by the functions; the model of the code's singular-vector sensitivity vs classical perturbation theory.
+  A  the uncertainty reaches the user aligned: ssi.SSI_mpe with covariance tables and SSIcov / SSIdat(cov_mm).mpe after a calc_unc
+     run, order as int / list / "find_min", request lists with missed requests before / between / after found ones: one variance
+     per extracted frequency, and it is the table entry of the pole that produced that frequency.
   G  SSIcov(calc_unc=True) through SingleSetup (hard criteria loosened so nothing is masked): result.Fn_poles_cov identical to
      SSI_fast + SSI_poles on build_hank's own H, T, and judged against the finite-difference oracle; includes the small edge of
      the quantifier (l in {1,2}, br in {2,3}) with 2..30 factor columns, below / at / above the number of Hankel entries.
@@ -656,6 +659,10 @@ def run(ctx):
             check_pipeline(ctx, case, fexprs, fmeta, do_prop)
         elif case["kind"] == "class":
             check_class(ctx, case)
+        elif case["kind"] == "mpe":
+            run_mpe_function(ctx, case)
+        elif case["kind"] == "mpe-class":
+            run_mpe_class(ctx, case)
 
     lap("corpus")
     # ---- part F
@@ -701,6 +708,9 @@ def run(ctx):
     # ---- part G: class glue
     glue(ctx)
     lap("glue")
+    # ---- part A: the uncertainty reaches the user aligned
+    mpe_stream(ctx)
+    lap("mpe_aligned")
 
 
 LOOSE_HC = dict(conj=False, xi_max=1e9, mpc_lim=-1.0, mpd_lim=1e9, cov_max=1e300)  # hard criteria that mask nothing
@@ -776,6 +786,199 @@ def check_class(ctx, case):
             check_propagation(ctx, dict(case, masks_off=unmasked, note="H, T = build_hank(Y, Y[refs], br, cov_mm, calc_unc=True, nb); "
                                         "reported = result.Fn_poles_cov of the class"),
                               H, T, br, ordmax, 1.0 / fs, "class", reported=got)
+
+
+# ----------------------------------------------------------------------------------------------------------------
+# the uncertainty reaches the user aligned: SSI_mpe / class.mpe pair every extracted frequency with ITS variance
+# ----------------------------------------------------------------------------------------------------------------
+def _same(a, b):
+    a, b = float(a), float(b)
+    return (a != a and b != b) or a == b or abs(a - b) <= 1e-12 * max(abs(a), abs(b))
+
+
+def check_aligned(ctx, case, out, tables, orders_req, site):
+    """out = (Fn, Xi, Phi, order_out, Fn_cov, Xi_cov, Phi_cov) as returned / stored; tables = (Fn_pol, Fn_pol_cov, Xi_pol_cov).
+    One variance per extracted frequency, and entry k is the table entry of a pole that produced Fn[k] (same value at one of the
+    requested orders) - selection itself is not judged here (that is C11)."""
+    Fn, Xi, Phi, order_out, Fc, Xc, Pc = out
+    Fp, Fpc, Xpc = tables
+    Fn = np.atleast_1d(np.asarray(Fn, float)).reshape(-1)
+    if Fc is None:
+        ctx.fail("oracle", "%s: no frequency variances returned although covariance tables were supplied" % site, case, key="C17:mpe:none")
+        return
+    Fc = np.atleast_1d(np.asarray(Fc, float)).reshape(-1)
+    Xc = np.atleast_1d(np.asarray(Xc, float)).reshape(-1)
+    if len(Fc) != len(Fn) or len(Xc) != len(Fn) or (len(Fn) > 0 and Pc is not None and np.shape(Pc) != np.shape(Phi)) \
+            or (len(Fn) == 0 and Pc is not None and np.size(Pc) != 0):
+        ctx.fail("oracle", "%s: %d frequencies extracted but %d frequency variances, %d damping variances, mode-shape variances of shape %s "
+                 "(shapes %s)" % (site, len(Fn), len(Fc), len(Xc), np.shape(Pc), np.shape(Phi)), case, key="C17:mpe:length")
+        return
+    cols = sorted(set(int(o) for o in orders_req))
+    for k, f in enumerate(Fn):
+        cands = [(i, o) for o in cols for i in range(Fp.shape[0]) if Fp[i, o] == f]
+        if not cands:
+            ctx.note("%s: an extracted frequency is not an entry of the pole table at a requested order (not judged here)" % site)
+            continue
+        if not any(_same(Fpc[i, o], Fc[k]) and _same(Xpc[i, o], Xc[k]) for (i, o) in cands):
+            i, o = cands[0]
+            ctx.fail("oracle", "%s: Fn[%d] = %.6g (order %d) is paired with variance %.6g, the table holds %.6g for that pole "
+                     "(entries shifted / another pole's variance)" % (site, k, f, o, Fc[k], Fpc[i, o]),
+                     dict(case, k=k, expected=float(Fpc[i, o]), got=float(Fc[k])), key="C17:mpe:aligned")
+            return
+
+
+def request_patterns(rng, found, missed):
+    """Request lists with missed requests before / between / after found ones."""
+    pats = ["MF", "FMF", "FFM", "MMFF", "FMMF", "MFMF", "F", "FF", "M"]
+    pat = pats[int(rng.integers(len(pats)))]
+    fi = mi = 0
+    req = []
+    for ch in pat:
+        if ch == "F" and fi < len(found):
+            req.append(found[fi]); fi += 1
+        elif ch == "M" and mi < len(missed):
+            req.append(missed[mi]); mi += 1
+    return pat, req
+
+
+def mpe_function_cases(ctx, count):
+    """ssi.SSI_mpe on synthetic pole tables (distinct frequencies and variances), order as int / list / find_min."""
+    rng = ctx.np_rng
+    for c in range(count):
+        ordmax = int(rng.integers(3, 8))
+        nch = int(rng.integers(1, 4))
+        shape = (ordmax, ordmax + 1)
+        Fp = np.full(shape, np.nan)
+        base = np.sort(rng.uniform(1.0, 40.0, size=ordmax)) + np.arange(ordmax) * 3.0
+        for o in range(1, ordmax + 1):
+            Fp[:o, o] = base[:o] * (1 + 1e-3 * rng.standard_normal(o))
+        fin = np.isfinite(Fp)
+        Xp = np.where(fin, rng.uniform(0.005, 0.08, size=shape), np.nan)
+        Pp = np.where(fin[:, :, None], rng.standard_normal(shape + (nch,)) + 1j * rng.standard_normal(shape + (nch,)), np.nan)
+        Fpc = np.where(fin, 10.0 ** rng.uniform(-6, -1, size=shape), np.nan)
+        Xpc = np.where(fin, 10.0 ** rng.uniform(-8, -3, size=shape), np.nan)
+        Ppc = np.where(fin[:, :, None], 10.0 ** rng.uniform(-6, -2, size=shape + (nch,)), np.nan)
+        Lab = np.where(fin, 1, 0)
+        mode = ("list", "int", "find_min")[c % 3] if c % 7 else "list"
+        o0 = int(rng.integers(2, ordmax + 1))
+        col = Fp[:o0, o0]
+        found = [float(x * (1 + 0.01 * rng.uniform(-1, 1))) for x in rng.permutation(col)]
+        missed = [float(x) for x in (col[:-1] + col[1:]) / 2 if np.min(np.abs(col - x) / x) > 0.12] + [float(col[-1] * 1.6), float(col[0] * 0.4)]
+        pat, req = request_patterns(rng, found, list(rng.permutation(missed)))
+        if mode == "find_min":
+            req = sorted(req)
+        if mode == "list":
+            order = [o0 if rng.random() < 0.6 else int(rng.integers(max(2, o0 - 1), ordmax + 1)) for _ in req]
+        else:
+            order = o0 if mode == "int" else "find_min"
+        case = dict(kind="mpe", pattern=pat, sel_freq=req, order=order, Fn_pol=Fp.tolist(), Xi_pol=Xp.tolist(), Fn_cov=Fpc.tolist(),
+                    Xi_cov=Xpc.tolist(), nch=nch, seed_phi=int(rng.integers(1 << 30)))
+        yield case, (Fp, Xp, Pp, Lab, Fpc, Xpc, Ppc)
+
+
+def run_mpe_function(ctx, case, tabs=None):
+    if tabs is None:  # replay from a corpus file: mode shapes are not part of the judged output, regenerate them
+        Fp, Xp, Fpc, Xpc = (np.array([[np.nan if v is None or v == "nan" else v for v in row] for row in case[k]], float)
+                            for k in ("Fn_pol", "Xi_pol", "Fn_cov", "Xi_cov"))
+        r2 = np.random.default_rng(case.get("seed_phi", 0))
+        fin = np.isfinite(Fp)
+        Pp = np.where(fin[:, :, None], r2.standard_normal(Fp.shape + (case["nch"],)) + 0j, np.nan)
+        Ppc = np.where(fin[:, :, None], r2.uniform(1e-6, 1e-2, size=Fp.shape + (case["nch"],)), np.nan)
+        Lab = np.where(fin, 1, 0)
+    else:
+        Fp, Xp, Pp, Lab, Fpc, Xpc, Ppc = tabs
+    order = case["order"]
+    ctx.hist("mpe order kind", "list" if isinstance(order, list) else str(type(order).__name__))
+    ctx.hist("mpe request pattern (F found, M missed)", case.get("pattern"))
+    ctx.count(case)
+    try:
+        out = ssi.SSI_mpe(list(case["sel_freq"]), Fp, Xp, Pp, order, Lab=Lab, rtol=5e-2, Fn_cov=Fpc.copy(), Xi_cov=Xpc.copy(), Phi_cov=Ppc.copy())
+    except Exception as e:
+        if len(case["sel_freq"]) == 0:
+            return
+        ctx.fail("oracle", "SSI_mpe with covariance tables raised %s" % type(e).__name__, case, key="C17:mpe:raises")
+        return
+    orders_req = order if isinstance(order, list) else ([order] if isinstance(order, int) else
+                                                        ([] if out[3] is None else [int(out[3])]))
+    check_aligned(ctx, case, out, (Fp, Fpc, Xpc), orders_req, "ssi.SSI_mpe(order=%s)" % ("list" if isinstance(order, list) else order))
+
+
+def run_mpe_class(ctx, case):
+    """SSIcov / SSIdat(method=cov_mm) with calc_unc=True: run, then mpe with int / list / find_min orders and request lists built from
+    the class's own pole table (found = a pole of that order, missed = far from every pole of that order)."""
+    from pyoma2.algorithms import SSIcov, SSIdat
+    from pyoma2.setup import SingleSetup
+    Y = np.array(case["Y"], float)
+    cls = SSIcov if case["cls"] == "SSIcov" else SSIdat
+    ss = SingleSetup(Y.T.copy(), fs=case["fs"])
+    alg = cls(name="u", method="cov_mm", br=case["br"], ordmax=case["ordmax"], ref_ind=case["refs"], calc_unc=True, nb=case["nb"], hc=dict(LOOSE_HC))
+    ss.add_algorithms(alg)
+    ctx.count(case)
+    try:
+        ss.run_by_name("u")
+    except Exception as e:
+        ctx.fail("oracle", "%s(calc_unc=True).run raised %s" % (case["cls"], type(e).__name__), case, key="C17:glue:raises")
+        return
+    res = alg.result
+    Fp = np.asarray(res.Fn_poles, float)
+    if res.Fn_poles_cov is None:
+        ctx.fail("oracle", "%s(calc_unc=True).result.Fn_poles_cov missing" % case["cls"], case, key="C17:glue:shape")
+        return
+    Fpc, Xpc = np.asarray(res.Fn_poles_cov, float), np.asarray(res.Xi_poles_cov, float)
+    # the table itself against the finite-difference oracle (cells the class blanked are skipped)
+    if not case.get("_table_checked"):
+        H, T = ssi.build_hank(Y, Y[case["refs"], :], case["br"], "cov_mm", calc_unc=True, nb=case["nb"])
+        check_propagation(ctx, dict(case, note="reported = result.Fn_poles_cov"), np.asarray(H), np.asarray(T), case["br"], case["ordmax"],
+                          1.0 / case["fs"], "class-mpe", reported=Fpc)
+    rng = np.random.default_rng(case["seed_req"])
+    for req_spec in case.get("requests") or [None] * 4:
+        if req_spec is None:
+            cols = [o for o in range(2, Fp.shape[1]) if len(np.unique(Fp[np.isfinite(Fp[:, o]), o])) >= 2]
+            if not cols:
+                return
+            o0 = int(rng.choice(cols))
+            col = np.unique(Fp[np.isfinite(Fp[:, o0]), o0])
+            found = [float(x * (1 + 0.005 * rng.uniform(-1, 1))) for x in rng.permutation(col)]
+            allf = Fp[np.isfinite(Fp)]
+            missed = [float(x) for x in np.concatenate([(col[:-1] + col[1:]) / 2, [col[-1] * 1.7 + 1.0, col[0] * 0.3]])
+                      if np.min(np.abs(allf - x) / np.maximum(allf, x)) > 0.12]
+            pat, req = request_patterns(rng, found, list(rng.permutation(missed)))
+            mode = ("list", "list", "int", "find_min")[int(rng.integers(4))]
+            if mode == "list":
+                order = [o0 if (rng.random() < 0.7 or len(cols) < 2) else int(rng.choice(cols)) for _ in req]
+            else:
+                order = o0 if mode == "int" else "find_min"
+            req_spec = dict(pattern=pat, sel_freq=req, order=order)
+        if not req_spec["sel_freq"]:
+            continue
+        order = req_spec["order"]
+        ctx.hist("mpe order kind", "class:" + ("list" if isinstance(order, list) else str(type(order).__name__)))
+        ctx.hist("mpe request pattern (F found, M missed)", req_spec.get("pattern"))
+        sub = dict({k: v for k, v in case.items() if k not in ("requests", "_table_checked")}, requests=[req_spec])
+        try:
+            alg.mpe(sel_freq=list(req_spec["sel_freq"]), order=order, rtol=5e-2)
+        except Exception as e:
+            if order == "find_min" or isinstance(e, ValueError):
+                continue  # nothing found at any order / an all-blank column: selection behaviour, not judged here
+            ctx.fail("oracle", "%s.mpe after a calc_unc run raised %s" % (case["cls"], type(e).__name__), sub, key="C17:mpe:raises")
+            continue
+        r = alg.result
+        orders_req = order if isinstance(order, list) else ([order] if isinstance(order, int) else ([] if r.order_out is None else [int(r.order_out)]))
+        check_aligned(ctx, sub, (r.Fn, r.Xi, r.Phi, r.order_out, r.Fn_cov, r.Xi_cov, r.Phi_cov), (Fp, Fpc, Xpc), orders_req,
+                      "%s.mpe(order=%s)" % (case["cls"], "list" if isinstance(order, list) else order))
+
+
+def mpe_stream(ctx):
+    rng = ctx.np_rng
+    for case, tabs in mpe_function_cases(ctx, ctx.n(60, 600)):
+        run_mpe_function(ctx, case, tabs)
+    for k in range(ctx.n(6, 40)):
+        l = int(rng.integers(2, 4))
+        refs = sorted(rng.choice(l, size=int(rng.integers(1, l + 1)), replace=False).tolist())
+        br = int(rng.integers(3, 6))
+        ordmax = int(min(6, br * l, (br + 1) * len(refs)))
+        run_mpe_class(ctx, dict(kind="mpe-class", cls=("SSIcov", "SSIdat")[k % 2], refs=refs, br=br, ordmax=ordmax, nb=int(rng.integers(4, 13)),
+                                fs=50.0, seed_req=int(rng.integers(1 << 30)), Y=gen_data(rng, l, 6, int(rng.integers(900, 1500))).tolist()))
 
 
 def glue(ctx):
